@@ -118,6 +118,9 @@ MODES = ('parse', 'parse_wc', 'lex', 'lex_yc')
 
 def check_text(acc, text, opens, origin):
     labels = []
+    if acc.extra.get('shard_aborted'):
+        acc.skipped['after_shard_abort'] += 1
+        return labels
     for mode in MODES:
         confirmed = acc.extra.get('nontermination_confirmed', 0)
         try:
@@ -126,6 +129,12 @@ def check_text(acc, text, opens, origin):
             if confirmed >= 2:
                 # two cases already confirmed in this shard: do not spend minutes on every further one
                 acc.label('slow_case_after_confirmed_nontermination')
+                if acc.labels['slow_case_after_confirmed_nontermination'] >= 10:
+                    # the tree under test hangs on a whole class of inputs: report what was confirmed
+                    # and stop this shard instead of spending its budget on more of the same
+                    acc.extra['shard_aborted'] = 1
+                    acc.budget_hit = True
+                    return labels
                 continue
             try:
                 out = run_with_watchdog(lambda: outcome(text, mode), 60)
